@@ -165,7 +165,10 @@ pub fn gen_project(t: &mut Tape) -> Project {
             // payloads whose type the tool can name: literals, struct literals, a by-reference
             // parameter of plain struct type
             let struct_params: Vec<&(String, String)> = params.iter().filter(|(_, ty)| structs.iter().any(|s| &s.name == ty)).collect();
-            let payload = match t.pick(4) {
+            let payload = match t.pick(5) {
+                // a binding whose type only a type checker could know: the payload must be
+                // `unknown` whatever other functions of the file call their variables
+                4 => "summary".to_string(),
                 0 => "1".to_string(),
                 1 => "\"text\"".to_string(),
                 2 if !struct_params.is_empty() => format!("&{}", struct_params[t.pick(struct_params.len())].0),
@@ -284,6 +287,9 @@ fn render_item(it: &Item, out: &mut String) {
             out.push_str(&format!(" {{{}\n", tw));
             if it.noise.inner_comment {
                 out.push_str("    // notify the frontend first\n");
+            }
+            if c.emits.iter().any(|(_, p)| p == "summary") {
+                out.push_str("    let summary = build_summary();\n");
             }
             for (ev, payload) in &c.emits {
                 out.push_str(&format!("    app.emit(\"{}\", {}).unwrap();\n", ev, payload));
@@ -429,7 +435,9 @@ pub fn t1_layout(t: &mut Tape, p: &Project) -> (Project, Vec<String>) {
 }
 
 fn decoy(t: &mut Tape, n: usize) -> (String, &'static str) {
-    match t.pick(8) {
+    match t.pick(10) {
+        8 => (format!("fn record_{}(summary: u32) -> u32 {{\n    summary\n}}\n", n), "helper_fn_same_binding_name"),
+        9 => (format!("pub fn log_{}(app: &AppHandle, summary: &str) {{\n    let _ = (app, summary);\n}}\n", n), "helper_fn_same_binding_name"),
         0 => (format!("fn helper_{}(values: &[u32]) -> u32 {{\n    values.iter().sum()\n}}\n", n), "helper_fn"),
         1 => (format!("#[derive(Debug, Clone, PartialEq)]\npub struct Internal{} {{\n    pub handle: u64,\n    pub label: String,\n}}\n", n), "non_serde_struct"),
         2 => (format!("pub const LIMIT_{}: usize = {};\n", n, 10 + n), "const"),
